@@ -29,7 +29,7 @@ def _strip(post):
 def gen(pid, thorough):
     behs = []
     stats = {"states": 0, "transitions": 0}
-    cfgs = ["MC_quick.cfg", "MC_quick2.cfg", "MC_quick3.cfg"] + (["MC_thorough.cfg", "MC_thorough2.cfg"] if thorough else [])
+    cfgs = ["MC_quick.cfg", "MC_quick2.cfg", "MC_quick3.cfg", "MC_quick4.cfg"] + (["MC_thorough.cfg", "MC_thorough2.cfg"] if thorough else [])
     for cfg in cfgs:
         sink = []
         r = vlib.run_tlc(pid, "mc_" + cfg[:-4], SPEC, "UpdatesMgr", cfg, timeout=2400, line_sink=sink.append)
@@ -39,12 +39,12 @@ def gen(pid, thorough):
         log("UpdatesMgr %s: %d generated / %d distinct states, depth %d, %.1fs, %d quiesced-state behaviours" % (
             cfg, r.generated, r.distinct, r.depth, r.wall, len(sink)))
         # cap the state cover of the big configurations: evenly spaced sample, deterministic
-        cap = 2000 if thorough else 800
+        cap = 2000 if thorough else 300
         if len(sink) > cap:
             step = len(sink) / float(cap)
             sink = [sink[int(k * step)] for k in range(cap)]
         behs += sink
-    n = 500 if thorough else 150
+    n = 500 if thorough else 100
     for cfg, depth in (("Sim_a.cfg", 15), ("Sim_b.cfg", 17), ("Sim_c.cfg", 17), ("Sim_d.cfg", 17)):
         s = vlib.run_tlc(pid, "sim_" + cfg[:-4], SPEC, "UpdatesMgr", cfg, workers=1, timeout=1200,
                          simulate="num=%d" % n, depth=depth, seed_=vlib.seed())
